@@ -863,9 +863,14 @@ fn judge(w: &World, k: usize, op: &Stmt, snaps: &[Option<(usize, usize, usize, b
     // computation it did not track in its previous run, and that computation ran later in the operation
     let late_edge = |reader: usize| -> bool {
         let Some(i) = sh.runs_op.iter().rposition(|r| r.0 == reader) else { return false };
-        sh.runs_op[i].3.iter().any(|d| {
-            !tracked_prev.get(reader).map(|t| t.contains(d)).unwrap_or(false) && sh.runs_op.iter().skip(i + 1).any(|r| r.0 == *d)
-        })
+        // a dependency of the final run that the reader has not tracked continuously since before the
+        // operation (it was missing before the operation or in an earlier run of the reader in this
+        // operation, which happens when effects write signals and the reader runs more than once)
+        let continuously = |d: &usize| -> bool {
+            tracked_prev.get(reader).map(|t| t.contains(d)).unwrap_or(false)
+                && sh.runs_op[..i].iter().filter(|r| r.0 == reader).all(|r| r.3.contains(d))
+        };
+        sh.runs_op[i].3.iter().any(|d| !continuously(d) && sh.runs_op.iter().skip(i + 1).any(|r| r.0 == *d))
     };
     let created_this_op = |node: usize| vals_prev.len() <= node;
     // C10: nothing runs inside a batch
@@ -1073,6 +1078,8 @@ pub fn case_line(ops: &[Stmt]) -> String {
 
 struct Gen<'a> {
     rng: &'a mut Rng,
+    /// next signal level (levels order the signals by creation in the program text)
+    next_lv: usize,
 }
 
 #[derive(Clone, Copy, PartialEq)]
@@ -1081,6 +1088,27 @@ enum HK {
     Memo,
     Effect,
     Scope,
+}
+
+/// a handle of the environment: its kind and its level (signals: a fresh increasing number; memos:
+/// the highest level they read with tracking; 0 for the rest)
+type Env = Vec<(HK, usize)>;
+
+/// the level bookkeeping of one computation. An effect may write a signal only if its level is
+/// above everything the effect reads with tracking, and may read only below everything it writes:
+/// every cascade of effect writes then climbs strictly in level, so it terminates.
+struct RW {
+    max_read: usize,
+    min_write: usize,
+}
+impl RW {
+    fn new() -> RW {
+        RW { max_read: 0, min_write: usize::MAX }
+    }
+}
+
+fn is_val(k: HK) -> bool {
+    k == HK::Sig || k == HK::Memo
 }
 
 impl<'a> Gen<'a> {
@@ -1094,19 +1122,43 @@ impl<'a> Gen<'a> {
             _ => Ex::C(self.val()),
         }
     }
-    fn pick(&mut self, env: &[HK], f: impl Fn(HK) -> bool) -> Option<usize> {
-        let c: Vec<usize> = (0..env.len()).filter(|i| f(env[*i])).collect();
+    fn new_sig(&mut self, env: &mut Env) {
+        self.next_lv += 1;
+        env.push((HK::Sig, self.next_lv));
+    }
+    fn pick(&mut self, env: &[(HK, usize)], f: impl Fn(HK) -> bool) -> Option<usize> {
+        let c: Vec<usize> = (0..env.len()).filter(|i| f(env[*i].0)).collect();
         if c.is_empty() { None } else { Some(c[self.rng.below(c.len())]) }
     }
+    /// a signal or memo this computation may read with tracking
+    fn pick_read(&mut self, env: &[(HK, usize)], rw: &mut RW) -> Option<usize> {
+        let c: Vec<usize> = (0..env.len()).filter(|i| is_val(env[*i].0) && env[*i].1 < rw.min_write).collect();
+        if c.is_empty() {
+            return None;
+        }
+        let h = c[self.rng.below(c.len())];
+        rw.max_read = rw.max_read.max(env[h].1);
+        Some(h)
+    }
+    /// a signal this effect may write
+    fn pick_write(&mut self, env: &[(HK, usize)], rw: &mut RW) -> Option<usize> {
+        let c: Vec<usize> = (0..env.len()).filter(|i| env[*i].0 == HK::Sig && env[*i].1 > rw.max_read).collect();
+        if c.is_empty() {
+            return None;
+        }
+        let h = c[self.rng.below(c.len())];
+        rw.min_write = rw.min_write.min(env[h].1);
+        Some(h)
+    }
     /// pure tracked-only body (reads and conditional reads)
-    fn pure_body(&mut self, env: &[HK], depth: usize) -> Vec<Stmt> {
+    fn pure_body(&mut self, env: &[(HK, usize)], depth: usize, rw: &mut RW) -> Vec<Stmt> {
         let n = 1 + self.rng.below(3);
         let mut b = vec![];
         for _ in 0..n {
-            let Some(h) = self.pick(env, |k| k == HK::Sig || k == HK::Memo) else { break };
+            let Some(h) = self.pick_read(env, rw) else { break };
             if depth > 0 && self.rng.chance(2, 5) {
-                let t = self.pure_body(env, depth - 1);
-                let e = if self.rng.chance(1, 2) { self.pure_body(env, depth - 1) } else { vec![] };
+                let t = self.pure_body(env, depth - 1, rw);
+                let e = if self.rng.chance(1, 2) { self.pure_body(env, depth - 1, rw) } else { vec![] };
                 b.push(Stmt::IfPos(h, t, e));
             } else {
                 b.push(Stmt::Read(h));
@@ -1114,72 +1166,91 @@ impl<'a> Gen<'a> {
         }
         b
     }
-    /// general body of a computation; `allow_set`: effects may write signals whose index is above
-    /// every signal index the enclosing effects can depend on (termination of cascades)
-    fn body(&mut self, env: &mut Vec<HK>, depth: usize, in_effect: bool, min_set: usize, rich: bool) -> Vec<Stmt> {
+    /// pure body with writes (effects only): reads, conditional reads and writes under the level rule
+    fn pure_body_w(&mut self, env: &[(HK, usize)], depth: usize, rw: &mut RW) -> Vec<Stmt> {
+        let mut b = self.pure_body(env, depth, rw);
+        let nw = self.rng.below(3);
+        for _ in 0..nw {
+            if let Some(h) = self.pick_write(env, rw) {
+                let at = self.rng.below(b.len() + 1);
+                let e = self.ex();
+                // a conditional write half of the time
+                if self.rng.chance(1, 3) {
+                    if let Some(c) = self.pick_read(env, rw) {
+                        if env[c].1 < env[h].1 {
+                            b.insert(at, Stmt::IfPos(c, vec![Stmt::Set(h, e)], vec![]));
+                            continue;
+                        }
+                    }
+                }
+                b.insert(at, Stmt::Set(h, e));
+            }
+        }
+        b
+    }
+    /// general body of a computation; `in_effect`: effects may write signals under the level rule
+    /// kept in `rw` (shared by everything that runs as part of the same computation)
+    fn body(&mut self, env: &mut Env, depth: usize, in_effect: bool, rw: &mut RW, rich: bool) -> Vec<Stmt> {
         let n = 1 + self.rng.below(if rich { 6 } else { 4 });
-        let base = env.len();
         let mut b = vec![];
         for _ in 0..n {
-            let vh = self.pick(env, |k| k == HK::Sig || k == HK::Memo);
             let choice = self.rng.below(if rich { 22 } else { 8 });
             let s = match choice {
-                0..=2 => vh.map(Stmt::Read),
-                3 => vh.map(Stmt::ReadU),
-                4 => vh.map(|h| {
+                0..=2 => self.pick_read(env, rw).map(Stmt::Read),
+                3 => self.pick(env, is_val).map(Stmt::ReadU),
+                4 => self.pick_read(env, rw).map(|h| {
                     let mut e1 = env.clone();
-                    let t = if depth > 0 { self.body(&mut e1, depth - 1, in_effect, min_set, rich) } else { vec![] };
+                    let t = if depth > 0 { self.body(&mut e1, depth - 1, in_effect, rw, rich) } else { vec![] };
                     let mut e2 = env.clone();
-                    let e = if depth > 0 && self.rng.chance(1, 2) { self.body(&mut e2, depth - 1, in_effect, min_set, rich) } else { vec![] };
+                    let e = if depth > 0 && self.rng.chance(1, 2) { self.body(&mut e2, depth - 1, in_effect, rw, rich) } else { vec![] };
                     Stmt::IfPos(h, t, e)
                 }),
-                5 => vh.map(Stmt::Track),
+                5 => self.pick_read(env, rw).map(Stmt::Track),
                 6 => {
                     let mut e1 = env.clone();
-                    let inner = self.body(&mut e1, depth.saturating_sub(1), in_effect, min_set, false);
+                    let inner = self.body(&mut e1, depth.saturating_sub(1), in_effect, rw, false);
                     Some(if self.rng.chance(1, 2) { Stmt::Untrack(inner) } else { Stmt::Component(inner) })
                 }
                 7 => {
                     let k = self.rng.below(3);
-                    let deps: Vec<usize> = (0..k).filter_map(|_| self.pick(env, |k| k == HK::Sig || k == HK::Memo)).collect();
+                    let deps: Vec<usize> = (0..k).filter_map(|_| self.pick_read(env, rw)).collect();
                     let mut e1 = env.clone();
-                    let inner = self.body(&mut e1, depth.saturating_sub(1), in_effect, min_set, false);
+                    let inner = self.body(&mut e1, depth.saturating_sub(1), in_effect, rw, false);
                     Some(Stmt::On(deps, inner))
                 }
                 8 => {
-                    env.push(HK::Sig);
+                    self.new_sig(env);
                     Some(Stmt::Signal(self.val()))
                 }
                 9 if depth > 0 => {
                     let mut e1 = env.clone();
-                    let inner = self.pure_or_body(&mut e1, depth - 1, false, usize::MAX);
-                    env.push(HK::Memo);
+                    let mut rwm = RW::new();
+                    let inner = self.pure_or_body(&mut e1, depth - 1, &mut rwm);
+                    env.push((HK::Memo, rwm.max_read));
                     Some(if self.rng.chance(1, 3) { Stmt::Selector(*self.rng.pick(&[EqK::Same, EqK::Parity]), inner) } else { Stmt::Memo(inner) })
                 }
                 10 if depth > 0 => {
                     let mut e1 = env.clone();
-                    let inner = self.body(&mut e1, depth - 1, true, min_set, rich);
-                    env.push(HK::Effect);
+                    let mut rwe = RW::new();
+                    let inner = self.body(&mut e1, depth - 1, true, &mut rwe, rich);
+                    env.push((HK::Effect, 0));
                     Some(Stmt::Effect(inner))
                 }
                 11 if depth > 0 => {
                     let mut e1 = env.clone();
-                    let inner = self.body(&mut e1, depth - 1, in_effect, min_set, rich);
-                    env.push(HK::Scope);
+                    let inner = self.body(&mut e1, depth - 1, in_effect, rw, rich);
+                    env.push((HK::Scope, 0));
                     Some(Stmt::Scope(inner))
                 }
                 12 => {
                     let mut e1 = env.clone();
-                    let inner = self.body(&mut e1, 0, false, usize::MAX, false);
+                    let mut rwc = RW::new();
+                    let inner = self.body(&mut e1, 0, false, &mut rwc, false);
                     Some(Stmt::Cleanup(inner.into_iter().filter(|s| matches!(s, Stmt::Read(_) | Stmt::ReadU(_) | Stmt::Track(_))).collect()))
                 }
                 13 => Some(Stmt::Provide(self.rng.below(3) as u8, self.ex())),
                 14 | 15 => Some(Stmt::Use(self.rng.below(3) as u8)),
-                16 if in_effect => {
-                    // effects may write signals created after everything they can read
-                    let c: Vec<usize> = (0..env.len()).filter(|i| env[*i] == HK::Sig && *i >= min_set.max(base)).collect();
-                    if c.is_empty() { None } else { Some(Stmt::Set(c[self.rng.below(c.len())], self.ex())) }
-                }
+                16 if in_effect => self.pick_write(env, rw).map(|h| Stmt::Set(h, self.ex())),
                 17 => self.pick(env, |k| k == HK::Sig).filter(|_| !in_effect).map(|h| Stmt::SetSilent(h, self.ex())),
                 18 => {
                     if self.rng.chance(1, 6) {
@@ -1191,13 +1262,13 @@ impl<'a> Gen<'a> {
                 }
                 19 if depth > 0 => self.pick(env, |k| k == HK::Scope || k == HK::Effect).map(|h| {
                     let mut e1 = env.clone();
-                    Stmt::RunIn(h, self.body(&mut e1, depth - 1, in_effect, min_set, false))
+                    Stmt::RunIn(h, self.body(&mut e1, depth - 1, in_effect, rw, false))
                 }),
                 20 if depth > 0 && in_effect => {
                     let mut e1 = env.clone();
-                    Some(Stmt::Batch(self.body(&mut e1, depth - 1, in_effect, min_set, false)))
+                    Some(Stmt::Batch(self.body(&mut e1, depth - 1, in_effect, rw, false)))
                 }
-                _ => vh.map(Stmt::Read),
+                _ => self.pick_read(env, rw).map(Stmt::Read),
             };
             if let Some(s) = s {
                 b.push(s);
@@ -1205,35 +1276,43 @@ impl<'a> Gen<'a> {
         }
         b
     }
-    fn pure_or_body(&mut self, env: &mut Vec<HK>, depth: usize, in_effect: bool, min_set: usize) -> Vec<Stmt> {
-        if self.rng.chance(3, 4) { self.pure_body(env, depth.min(1)) } else { self.body(env, depth, in_effect, min_set, false) }
+    /// body of a memo (never writes)
+    fn pure_or_body(&mut self, env: &mut Env, depth: usize, rw: &mut RW) -> Vec<Stmt> {
+        if self.rng.chance(3, 4) { self.pure_body(env, depth.min(1), rw) } else { self.body(env, depth, false, rw, false) }
     }
 
     /// a random program: declarations then operations, all at top level
     fn program(&mut self, profile: usize) -> Vec<Stmt> {
-        let mut env: Vec<HK> = vec![];
+        let mut env: Env = vec![];
         let mut ops = vec![];
         let nsig = 1 + self.rng.below(4);
         for _ in 0..nsig {
-            env.push(HK::Sig);
+            self.new_sig(&mut env);
             ops.push(Stmt::Signal(self.val()));
         }
-        let ncomp = 1 + self.rng.below(if profile == 0 { 6 } else { 5 });
+        let ncomp = 1 + self.rng.below(if profile == 0 || profile == 3 { 6 } else { 5 });
         for _ in 0..ncomp {
             let mut e1 = env.clone();
+            let mut rw = RW::new();
             let s = match (profile, self.rng.below(10)) {
                 // profile 0: pure programs (C01/C02/C03 core): memos, selectors and effects with pure tracked bodies
-                (0, 0..=4) => { let b = self.pure_body(&e1, 2); env.push(HK::Memo); Stmt::Memo(b) }
-                (0, 5..=6) => { let b = self.pure_body(&e1, 2); env.push(HK::Memo); Stmt::Selector(*self.rng.pick(&[EqK::Same, EqK::Parity]), b) }
-                (0, _) => { let b = self.pure_body(&e1, 2); env.push(HK::Effect); Stmt::Effect(b) }
+                (0, 0..=4) => { let b = self.pure_body(&e1, 2, &mut rw); env.push((HK::Memo, rw.max_read)); Stmt::Memo(b) }
+                (0, 5..=6) => { let b = self.pure_body(&e1, 2, &mut rw); env.push((HK::Memo, rw.max_read)); Stmt::Selector(*self.rng.pick(&[EqK::Same, EqK::Parity]), b) }
+                (0, _) => { let b = self.pure_body(&e1, 2, &mut rw); env.push((HK::Effect, 0)); Stmt::Effect(b) }
                 // profile 1: read forms (C03)
-                (1, 0..=5) => { let b = self.body(&mut e1, 1, false, usize::MAX, false); env.push(HK::Memo); Stmt::Memo(b) }
-                (1, _) => { let b = self.body(&mut e1, 1, false, usize::MAX, false); env.push(HK::Effect); Stmt::Effect(b) }
+                (1, 0..=5) => { let b = self.body(&mut e1, 1, false, &mut rw, false); env.push((HK::Memo, rw.max_read)); Stmt::Memo(b) }
+                (1, _) => { let b = self.body(&mut e1, 1, false, &mut rw, false); env.push((HK::Effect, 0)); Stmt::Effect(b) }
+                // profile 3: pure programs whose effects also write signals (propagations started
+                // while another one is running, over shared nodes)
+                (3, 0..=3) => { let b = self.pure_body(&e1, 1, &mut rw); env.push((HK::Memo, rw.max_read)); Stmt::Memo(b) }
+                (3, 4) => { let b = self.pure_body(&e1, 1, &mut rw); env.push((HK::Memo, rw.max_read)); Stmt::Selector(*self.rng.pick(&[EqK::Same, EqK::Parity]), b) }
+                (3, 5..=8) => { let b = self.pure_body_w(&e1, 1, &mut rw); env.push((HK::Effect, 0)); Stmt::Effect(b) }
+                (3, _) => { self.new_sig(&mut env); Stmt::Signal(self.val()) }
                 // profile 2: everything (ownership, disposal, context, effect writes, batches)
-                (_, 0..=2) => { let b = self.pure_or_body(&mut e1, 2, false, usize::MAX); env.push(HK::Memo); Stmt::Memo(b) }
-                (_, 3..=6) => { let ms = env.len(); let b = self.body(&mut e1, 2, true, ms, true); env.push(HK::Effect); Stmt::Effect(b) }
-                (_, 7) => { let b = self.body(&mut e1, 2, false, usize::MAX, true); env.push(HK::Scope); Stmt::Scope(b) }
-                (_, _) => { env.push(HK::Sig); Stmt::Signal(self.val()) }
+                (_, 0..=2) => { let b = self.pure_or_body(&mut e1, 2, &mut rw); env.push((HK::Memo, rw.max_read)); Stmt::Memo(b) }
+                (_, 3..=6) => { let b = self.body(&mut e1, 2, true, &mut rw, true); env.push((HK::Effect, 0)); Stmt::Effect(b) }
+                (_, 7) => { let b = self.body(&mut e1, 2, false, &mut rw, true); env.push((HK::Scope, 0)); Stmt::Scope(b) }
+                (_, _) => { self.new_sig(&mut env); Stmt::Signal(self.val()) }
             };
             ops.push(s);
         }
@@ -1260,17 +1339,19 @@ impl<'a> Gen<'a> {
                     }
                     Some(Stmt::Batch(b))
                 }
-                8 => self.pick(&env, |k| k == HK::Sig).map(|h| Stmt::SetSilent(h, Ex::C(self.val()))),
+                8 if profile != 3 => self.pick(&env, |k| k == HK::Sig).map(|h| Stmt::SetSilent(h, Ex::C(self.val()))),
+                8 => self.pick(&env, |k| k == HK::Sig).map(|h| Stmt::Set(h, Ex::C(self.val()))),
                 9..=10 => self.pick(&env, |_| true).map(Stmt::Dispose),
                 11 => self.pick(&env, |k| k == HK::Scope || k == HK::Effect).map(|h| {
                     let mut e1 = env.clone();
-                    Stmt::RunIn(h, self.body(&mut e1, 1, false, usize::MAX, true))
+                    let mut rw = RW::new();
+                    Stmt::RunIn(h, self.body(&mut e1, 1, false, &mut rw, true))
                 }),
                 12 => {
                     let mut e1 = env.clone();
-                    let ms = env.len();
-                    let b = self.body(&mut e1, 1, true, ms, true);
-                    env.push(HK::Effect);
+                    let mut rw = RW::new();
+                    let b = self.body(&mut e1, 1, true, &mut rw, true);
+                    env.push((HK::Effect, 0));
                     Some(Stmt::Effect(b))
                 }
                 _ => Some(Stmt::Use(self.rng.below(3) as u8)),
@@ -1362,6 +1443,51 @@ fn templates() -> Vec<Vec<Stmt>> {
     t.push(vec![Provide(0, Ex::C(1)), Scope(vec![Provide(1, Ex::C(2)), Scope(vec![Provide(0, Ex::C(3)), Use(0), Use(1), Use(2)]), Use(0)]), Use(0), Use(1), RunIn(0, vec![Use(1), Use(0)])]);
     t.push(vec![Signal(0), Provide(0, Ex::C(5)), Effect(vec![Read(0), IfPos(0, vec![Provide(0, Ex::Acc)], vec![]), Effect(vec![Use(0)])]), s_set(0, 1), s_set(0, 0), s_set(0, 2)]);
     t.push(vec![Provide(2, Ex::C(1)), Provide(2, Ex::C(2))]);
+    // effects that write a second signal during the propagation of the first, and computations
+    // that read both (propagations nested in a running one, over nodes of the outer wave)
+    for eff_first in [true, false] {
+        for indirect in [false, true] {
+            for batch in [false, true] {
+                // 0 = s, 1 = t
+                let mut p = vec![Signal(0), Signal(0)];
+                let eff = Effect(vec![Read(0), Set(1, Ex::AccPlus(10))]);
+                if eff_first {
+                    p.push(eff.clone());
+                }
+                let src = if indirect {
+                    p.push(Memo(vec![Read(1), Read(1)]));
+                    p.len() - 1
+                } else {
+                    1
+                };
+                p.push(Memo(vec![Read(0), Read(src)]));
+                let sum = p.len() - 1;
+                p.push(Effect(vec![Read(sum)]));
+                if !eff_first {
+                    p.push(eff);
+                }
+                for v in [1, 2, 2, -1] {
+                    if batch {
+                        p.push(Batch(vec![s_set(0, v), s_set(0, v + 1)]));
+                    } else {
+                        p.push(s_set(0, v));
+                    }
+                    p.push(ReadU(sum));
+                }
+                t.push(p);
+            }
+        }
+    }
+    // a chain of writing effects: s -> (E1 writes t) -> (E2 writes u) -> observer of s, t, u
+    {
+        let mut p = vec![Signal(0), Signal(0), Signal(0)];
+        p.push(Effect(vec![Read(1), Set(2, Ex::AccPlus(1))]));
+        p.push(Effect(vec![Read(0), Set(1, Ex::AccPlus(2))]));
+        p.push(Memo(vec![Read(0), Read(1), Read(2)]));
+        p.push(Effect(vec![Read(5)]));
+        p.extend([s_set(0, 1), ReadU(5), s_set(0, 2), ReadU(5), s_set(1, 0), ReadU(5)]);
+        t.push(p);
+    }
     t
 }
 
@@ -1447,8 +1573,8 @@ pub fn run(args: &Args) {
         let mut rng = Rng::new(args.seed);
         let n = if thorough { 600_000 } else { 40_000 };
         for i in 0..n {
-            let profile = focus.unwrap_or(i % 3);
-            let mut g = Gen { rng: &mut rng };
+            let profile = focus.unwrap_or(i % 4);
+            let mut g = Gen { rng: &mut rng, next_lv: 0 };
             cases.push(g.program(profile));
         }
     }
